@@ -32,41 +32,100 @@ var epoch atomic.Int64
 // NewEpoch is called by worlds at the start of a run.
 func NewEpoch() { epoch.Add(1) }
 
-// Mutex is a one-slot channel.
-type Mutex struct {
-	g  sync.Mutex
-	ch chan struct{}
-	ep int64
+// BlockHooks let a kernel that counts running tasks (mode M1) know when a task blocks on a
+// lock of the code under test and when it is given the lock. Begin is called by the blocking
+// goroutine and says whether that goroutine is one the kernel counts; Resume is called by the
+// unlocking goroutine for a counted waiter right before it is woken. In synctest worlds no
+// hooks are needed: waiting on a channel is durable blocking there.
+type BlockHooks struct {
+	Begin  func() (counted bool)
+	Resume func()
 }
 
-func (m *Mutex) c() chan struct{} {
-	m.g.Lock()
-	if e := epoch.Load(); m.ch == nil || m.ep != e {
-		m.ch = make(chan struct{}, 1)
-		m.ep = e
+var blockHooks atomic.Pointer[BlockHooks]
+
+// SetBlockHooks installs (or, with nil, removes) the hooks.
+func SetBlockHooks(h *BlockHooks) { blockHooks.Store(h) }
+
+type waiter struct {
+	ch      chan struct{}
+	write   bool
+	counted bool
+}
+
+func newWaiter(write bool) *waiter {
+	w := &waiter{ch: make(chan struct{}), write: write}
+	if h := blockHooks.Load(); h != nil {
+		w.counted = h.Begin()
 	}
-	c := m.ch
-	m.g.Unlock()
-	return c
+	return w
 }
 
-func (m *Mutex) Lock() { m.c() <- struct{}{} }
+func (w *waiter) wake() {
+	if w.counted {
+		if h := blockHooks.Load(); h != nil {
+			h.Resume()
+		}
+	}
+	close(w.ch)
+}
+
+// Mutex hands the lock over directly to the longest-waiting goroutine (FIFO): which waiter
+// gets it never depends on the Go scheduler. Waiters block on a channel of their own.
+type Mutex struct {
+	g      sync.Mutex
+	locked bool
+	q      []*waiter
+	ep     int64
+}
+
+// fresh forgets state from an earlier run (called with g held).
+func (m *Mutex) fresh() {
+	if e := epoch.Load(); m.ep != e {
+		m.locked, m.q, m.ep = false, nil, e
+	}
+}
+
+func (m *Mutex) Lock() {
+	m.g.Lock()
+	m.fresh()
+	if !m.locked {
+		m.locked = true
+		m.g.Unlock()
+		return
+	}
+	w := newWaiter(true)
+	m.q = append(m.q, w)
+	m.g.Unlock()
+	<-w.ch // the unlocker passed the lock on to us
+}
 
 func (m *Mutex) TryLock() bool {
-	select {
-	case m.c() <- struct{}{}:
-		return true
-	default:
+	m.g.Lock()
+	defer m.g.Unlock()
+	m.fresh()
+	if m.locked {
 		return false
 	}
+	m.locked = true
+	return true
 }
 
 func (m *Mutex) Unlock() {
-	select {
-	case <-m.c():
-	default:
+	m.g.Lock()
+	m.fresh()
+	if !m.locked {
+		m.g.Unlock()
 		panic("sync: unlock of unlocked mutex")
 	}
+	if len(m.q) > 0 {
+		w := m.q[0]
+		m.q = m.q[1:]
+		w.wake() // stays locked: ownership moves to w
+	} else {
+		m.locked = false
+	}
+	m.g.Unlock()
 	if f := afterUnlock.Load(); f != nil {
 		(*f)()
 	}
@@ -86,91 +145,122 @@ func SetAfterUnlock(f func()) {
 	afterUnlock.Store(&f)
 }
 
-// RWMutex: writers hold w for the whole critical section; readers pass through w and
-// keep a token out of noReaders while any reader is inside.
+// RWMutex: one FIFO queue of readers and writers; a waiting writer holds back later readers
+// (as sync.RWMutex does); grants are made by the unlocking goroutine.
 type RWMutex struct {
-	w         Mutex
-	r         Mutex
-	readers   int
-	g         sync.Mutex
-	noReaders chan struct{}
-	ep        int64
+	g       sync.Mutex
+	writer  bool
+	readers int
+	q       []*waiter
+	ep      int64
 }
 
-func (m *RWMutex) nr() chan struct{} {
-	m.g.Lock()
-	if e := epoch.Load(); m.noReaders == nil || m.ep != e {
-		m.noReaders = make(chan struct{}, 1)
-		m.noReaders <- struct{}{}
-		m.ep = e
-		m.readers = 0
+func (m *RWMutex) fresh() {
+	if e := epoch.Load(); m.ep != e {
+		m.writer, m.readers, m.q, m.ep = false, 0, nil, e
 	}
-	c := m.noReaders
-	m.g.Unlock()
-	return c
+}
+
+// grant wakes whoever may enter now (called with g held).
+func (m *RWMutex) grant() {
+	for len(m.q) > 0 {
+		w := m.q[0]
+		if w.write {
+			if m.readers == 0 && !m.writer {
+				m.writer = true
+				m.q = m.q[1:]
+				w.wake()
+			}
+			return
+		}
+		if m.writer {
+			return
+		}
+		m.readers++
+		m.q = m.q[1:]
+		w.wake()
+	}
 }
 
 func (m *RWMutex) RLock() {
-	nr := m.nr()
-	m.w.Lock()
-	m.r.Lock()
-	m.readers++
-	if m.readers == 1 {
-		<-nr
+	m.g.Lock()
+	m.fresh()
+	if !m.writer && len(m.q) == 0 {
+		m.readers++
+		m.g.Unlock()
+		return
 	}
-	m.r.Unlock()
-	m.w.Unlock()
+	w := newWaiter(false)
+	m.q = append(m.q, w)
+	m.g.Unlock()
+	<-w.ch
 }
 
 func (m *RWMutex) RUnlock() {
-	nr := m.nr()
-	m.r.Lock()
+	m.g.Lock()
+	m.fresh()
 	m.readers--
 	if m.readers < 0 {
+		m.g.Unlock()
 		panic("sync: RUnlock of unlocked RWMutex")
 	}
 	if m.readers == 0 {
-		nr <- struct{}{}
+		m.grant()
 	}
-	m.r.Unlock()
+	m.g.Unlock()
+	if f := afterUnlock.Load(); f != nil {
+		(*f)()
+	}
 }
 
 func (m *RWMutex) Lock() {
-	nr := m.nr()
-	m.w.Lock()
-	<-nr
+	m.g.Lock()
+	m.fresh()
+	if !m.writer && m.readers == 0 && len(m.q) == 0 {
+		m.writer = true
+		m.g.Unlock()
+		return
+	}
+	w := newWaiter(true)
+	m.q = append(m.q, w)
+	m.g.Unlock()
+	<-w.ch
 }
 
 func (m *RWMutex) Unlock() {
-	m.nr() <- struct{}{}
-	m.w.Unlock()
+	m.g.Lock()
+	m.fresh()
+	if !m.writer {
+		m.g.Unlock()
+		panic("sync: Unlock of unlocked RWMutex")
+	}
+	m.writer = false
+	m.grant()
+	m.g.Unlock()
+	if f := afterUnlock.Load(); f != nil {
+		(*f)()
+	}
 }
 
 func (m *RWMutex) TryLock() bool {
-	if !m.w.TryLock() {
+	m.g.Lock()
+	defer m.g.Unlock()
+	m.fresh()
+	if m.writer || m.readers > 0 || len(m.q) > 0 {
 		return false
 	}
-	select {
-	case <-m.nr():
-		return true
-	default:
-		m.w.Unlock()
-		return false
-	}
+	m.writer = true
+	return true
 }
 
 func (m *RWMutex) TryRLock() bool {
-	if !m.w.TryLock() {
+	m.g.Lock()
+	defer m.g.Unlock()
+	m.fresh()
+	if m.writer || len(m.q) > 0 {
 		return false
 	}
-	nr := m.nr()
-	m.r.Lock()
 	m.readers++
-	if m.readers == 1 {
-		<-nr
-	}
-	m.r.Unlock()
-	m.w.Unlock()
 	return true
 }
 
